@@ -16,6 +16,27 @@ from .types import (BOOL, CHAR, INT, STR, Abs, ClassRef, DictT, FuncRef, ListT, 
                     SetT, SList, SSet, SV, TupleT, parse_ty, sort_of)
 
 
+_LOOP_PINS = None
+
+
+def load_loop_pins():
+    global _LOOP_PINS
+    if _LOOP_PINS is None:
+        import json
+        import pathlib
+
+        p = pathlib.Path(__file__).resolve().parent.parent / "contracts" / "loop_pins.json"
+        _LOOP_PINS = json.loads(p.read_text()) if p.exists() else {}
+    return _LOOP_PINS
+
+
+class DriftedGhost:
+    """Value of a ghost variable whose maintaining hook has lost its anchor in the source (see Verifier.drifted_ghost)."""
+
+    def __init__(self, msg):
+        self.msg = msg
+
+
 class Verifier:
     def __init__(self, contract: Contract, spec_ns: dict, axioms: dict, default_policies: dict, shapes: dict):
         self.c = contract
@@ -75,6 +96,14 @@ class Verifier:
                 self.errors.append(f"unsupported: {ex}")
                 pending.extend(ctx.new_pending)
                 break
+            except (RaiseSig, ReturnSig, BreakSig, ContinueSig):
+                raise
+            except Exception as ex:  # noqa: BLE001
+                if getattr(self, "drift", None):
+                    # a sidecar policy that builds on the output of a modelled source pattern met something else: undecided
+                    self.errors.append(f"unsupported: {self.drift[0]} (verification could not continue: {type(ex).__name__}: {ex})")
+                    break
+                raise
             pending.extend(ctx.new_pending)
         self.wall = time.time() - t0
         return self.obligations
@@ -116,6 +145,8 @@ class Verifier:
             else:
                 gv = self.make_value(I, gty, gname)
             I.ghost[gname] = gv
+        for gname, msg in self.drifted_ghost().items():
+            I.ghost[gname] = DriftedGhost(msg)
         for gname in self.contract_globals(c.target):
             self.global_value(I, gname)
         I.old_env, I.old_map = self.snapshot(I, env)
@@ -379,11 +410,46 @@ class Verifier:
         return z3.BoolVal(False)
 
     # ------------------------------------------------------------------ loops / locals
-    def loop_spec(self, qual, ordn):
+    def loop_spec(self, qual, ordn, loops=None):
         c = self.contract_of_frame(qual)
         if c is None or ordn is None:
             return None
-        return c.loops.get(ordn)
+        if loops is None or not c.loops:
+            return c.loops.get(ordn)
+        return self.loop_map(c, loops).get(ordn)
+
+    def loop_map(self, c, loops):
+        """current loop ordinal -> Loop spec.  Specs are written per loop ordinal (pre-order) of the function as it was when the
+        contract was written; contracts/loop_pins.json records the header (`for <iter>` / `while <test>`, n-th occurrence) each
+        spec belongs to.  A spec follows its loop when other loops are inserted, removed or reordered; a loop whose header was
+        edited in place keeps the spec of its ordinal.  Without a pin the ordinal decides."""
+        key = (c.name or c.target, tuple(id(l) for l in loops))
+        cache = self.__dict__.setdefault("_loop_maps", {})
+        if key in cache:
+            return cache[key]
+        from .extract import loop_keys
+
+        pins = load_loop_pins().get(c.name or c.target)
+        if not pins:
+            cache[key] = dict(c.loops)
+            return cache[key]
+        cur = loop_keys(loops)
+        pinned = {int(o): tuple(k) for o, k in pins.items()}
+        res = {}
+        for o, spec in c.loops.items():
+            k = pinned.get(o)
+            if k is not None and k in cur:
+                res[cur.index(k)] = spec
+        for o, spec in c.loops.items():
+            k = pinned.get(o)
+            if k is not None and k in cur:
+                continue
+            if o < len(cur) and o not in res and (k is None or cur[o] not in pinned.values()):
+                res[o] = spec  # header edited in place (or never pinned): the ordinal decides
+            else:
+                self.drift = getattr(self, "drift", []) + [f"loop spec #{o} of {c.name or c.target} has no loop to attach to"]
+        cache[key] = res
+        return res
 
     def contract_of_frame(self, qual):
         if qual == self.c.target:
@@ -761,6 +827,16 @@ class Verifier:
         for k in (qual, qual.split("inline_snapshot.", 1)[-1], two):
             if k in self.default_policies:
                 return self.default_policies[k]
+        if default is None:
+            # a helper in the module of the verified function that no contract mentions (e.g. extracted by a refactoring):
+            # executing its real body is always sound
+            try:
+                m1, _ = extract.split_qual(qual)
+                m2, _ = extract.split_qual(self.c.target)
+                if m1 is m2:
+                    return "inline"
+            except Exception:
+                pass
         return default
 
     def closure_policy(self, I, fn, decorators):
@@ -842,6 +918,32 @@ class Verifier:
         if hook is None:
             return Opaque("fstring")
         return hook(I, n, env)
+
+    def drifted_ghost(self):
+        """A contract that models an expression of the function by its source pattern cannot say anything about the ghost
+        state that pattern's hook maintains once the pattern is gone (the function was restructured).  Returns
+        {ghost name: message} for the ghost variables assigned by the hooks of patterns that no longer occur; a clause that reads
+        one of them is undecided (contract drift), everything else is still verified."""
+        if not self.c.extern_patterns:
+            return {}
+        import inspect
+        import re
+
+        nodes = [n for n in ast.walk(self.fn) if isinstance(n, ast.expr)]
+        out = {}
+        for pat, hook in self.c.extern_patterns.items():
+            if any(_match_pattern(pat, n) for n in nodes):
+                continue
+            try:
+                src = inspect.getsource(hook)
+            except (OSError, TypeError):
+                src = ""
+            names = set(re.findall(r"ghost\[[\"']([A-Za-z_]\w*)[\"']\]\s*=[^=]", src))
+            msg = f"contract drift: the modelled source pattern `{pat[:60]}` no longer occurs in {self.c.target}"
+            self.drift = getattr(self, "drift", []) + [msg]
+            for nm in names:
+                out[nm] = msg
+        return out
 
     def extern_pattern(self, I, n, env):
         src = ast.unparse(n)
